@@ -292,6 +292,19 @@ def auto_discharge(ctx, s):
                     m = re.search(r"slice::(windows|chunks_exact)\((.*), (\d+)\)", txt)
                     if m and int(m.group(3)) > i:
                         return "A4: constant index %d into an element of %s(%s)" % (i, m.group(1), m.group(3))
+                    # the same element handed to a closure by an iterator adaptor (`v.windows(2).any(|pair| pair[0] == pair[1])`)
+                    par = fn.get("parent")
+                    if fn.get("kind") == "Closure" and par in F.fns and re.match(r"^PtrMetadata\(arg1\)$|^Len\(arg1\)$|arg1", txt) and "arg2" not in txt:
+                        pfn = F.fns[par]
+                        pex = Exprs(pfn)
+                        for pb in pfn["blocks"]:
+                            pt = pb["term"]
+                            if pt["k"] == "call" and not pb["cleanup"] and s["fn"] in [norm(c_) for c_ in pt.get("callables", [])] + list(pt.get("ncallables", [])):
+                                if any(re.search(r"::(any|all|for_each|map|filter|filter_map|find|find_map|position|try_for_each|take_while|skip_while|fold|flat_map)$", n_) for n_ in callee_names(pt)) and pt["args"]:
+                                    rtxt = render(pex.operand(pt["args"][0]))
+                                    m2 = re.search(r"slice::(windows|chunks_exact)\((.*), (\d+)\)", rtxt)
+                                    if m2 and int(m2.group(3)) > i:
+                                        return "A4: constant index %d into an element of %s(%s) handed to the closure by an iterator adaptor" % (i, m2.group(1), m2.group(3))
         return None
     if t["k"] != "call":
         return None
